@@ -578,7 +578,7 @@ func (o *Origins) load(ld *ssa.UnOp, depth int) *Term {
 		// stores to the same field exist: they must all go through the same base pointer value,
 		// then the reaching ones (flow-sensitive) describe the load.
 		for _, st := range o.fieldStores[k] {
-			if sb := st.Addr.(*ssa.FieldAddr).X; sb != a.X && !distinctObjects(sb, a.X) {
+			if sb := st.Addr.(*ssa.FieldAddr).X; !sameAddr(sb, a.X) && !distinctObjects(sb, a.X) {
 				return opaque("mem:" + fname)
 			}
 		}
@@ -755,12 +755,25 @@ func (o *Origins) reachingFieldDefs(base ssa.Value, field int, at ssa.Instructio
 		if !ok {
 			return nil
 		}
-		if fa, ok := st.Addr.(*ssa.FieldAddr); ok && fa.X == base && fa.Field == field {
+		if fa, ok := st.Addr.(*ssa.FieldAddr); ok && sameAddr(fa.X, base) && fa.Field == field {
 			return st
 		}
 		return nil
 	}
 	return reaching(isDef, at)
+}
+
+// sameAddr: two address values denote the same location: identical, or the same field path of the same base.
+func sameAddr(a, b ssa.Value) bool {
+	if a == b {
+		return true
+	}
+	fa, ok1 := a.(*ssa.FieldAddr)
+	fb, ok2 := b.(*ssa.FieldAddr)
+	if ok1 && ok2 {
+		return fa.Field == fb.Field && sameAddr(fa.X, fb.X)
+	}
+	return false
 }
 
 // reachingDefs returns the stores to a (whole-variable stores, and stores to field `field` when
